@@ -35,7 +35,15 @@ impl Rng {
     }
   }
   pub fn range(&mut self, lo: u64, hi_incl: u64) -> u64 {
-    lo + self.below(hi_incl - lo + 1)
+    if hi_incl <= lo {
+      // degenerate interval: still consume one draw so that sequences stay aligned
+      let _ = self.next();
+      return lo;
+    }
+    match (hi_incl - lo).checked_add(1) {
+      Some(n) => lo + self.below(n),
+      None => self.next(),
+    }
   }
   pub fn chance(&mut self, num: u64, den: u64) -> bool {
     self.below(den) < num
